@@ -200,6 +200,11 @@ func (b *bgen) bschema(from string, depth int, refP float64) M {
 			mem = append(mem, b.bschema(from, depth-1, refP))
 		}
 		s["allOf"] = mem
+		if b.p(0.25) {
+			// a composition that also allows additional properties, without properties of its own
+			s["additionalProperties"] = b.leafOrRef(from, refP)
+			b.hit("schema:allOf-with-additionalProperties")
+		}
 	}
 	return s
 }
@@ -747,6 +752,15 @@ func (b *bgen) injectScenario(name string, rootDefs, paths M, aux map[string]M, 
 		if _, exists := rootDefs[clash]; !exists {
 			rootDefs[clash] = M{"type": "object", "properties": M{"existing": M{"type": "boolean"}}}
 		}
+		if g.p(0.4) {
+			// two existing names that differ from the generated one (and from each other) by letter case only
+			for _, v := range []string{strings.ToUpper(clash), strings.ToUpper(clash[:1]) + clash[1:]} {
+				if _, exists := rootDefs[v]; !exists && v != clash {
+					rootDefs[v] = M{"type": "object", "properties": M{"existing": M{"type": "string"}}}
+				}
+			}
+			g.hit("scenario:generated-name-clash-two-spellings")
+		}
 		paths["/scn/clash"] = M{"get": resp(M{"$ref": "#/definitions/" + jsonPtrEscape(holder)}), "put": resp(M{"$ref": "#/definitions/" + jsonPtrEscape(clash)})}
 		g.hit("scenario:generated-name-clash")
 	case "pointer-chain-sections":
@@ -772,6 +786,96 @@ func (b *bgen) injectScenario(name string, rootDefs, paths M, aux map[string]M, 
 			paths["/scn/chain2"] = M{"get": resp(M{"$ref": "#/parameters/chainP/schema"})}
 		}
 		g.hit("scenario:pointer-chain-sections")
+	case "hash-twins":
+		// two $ref-free definitions of one auxiliary document whose names agree up to a '#', both referred to
+		if len(b.auxPaths) == 0 {
+			return
+		}
+		ap := b.auxPaths[0]
+		base := g.pick([]string{"issue", "a b", "t~k"})
+		n1, n2 := base+"#1", base+"#2"
+		aux[ap]["definitions"].(M)[n1] = M{"type": "object", "properties": M{"first": M{"type": "string"}}}
+		aux[ap]["definitions"].(M)[n2] = M{"type": "object", "properties": M{"second": M{"type": "integer"}}}
+		refTo := func(n string) M {
+			return M{"$ref": relRef("", ap) + "#/definitions/" + urlFragEscape(jsonPtrEscape(n))}
+		}
+		paths["/scn/hash"] = M{"get": resp(refTo(n1)), "put": resp(refTo(n2))}
+		if g.p(0.5) {
+			rootDefs["hashHolder"] = M{"type": "object", "properties": M{"one": refTo(n1), "two": M{"type": "array", "items": refTo(n2)}}}
+			paths["/scn/hash2"] = M{"get": resp(M{"$ref": "#/definitions/hashHolder"})}
+		}
+		g.hit("scenario:hash-twins")
+	case "no-root-definitions":
+		// the root has no definitions section at all; two auxiliary documents define a $ref-free schema under the same name
+		for k := range rootDefs {
+			delete(rootDefs, k)
+		}
+		for _, m := range []M{paths, params, resps} {
+			for k := range m {
+				delete(m, k)
+			}
+		}
+		for k := range aux {
+			delete(aux, k)
+		}
+		nm := g.pick([]string{"item", "line item", "geo/point"})
+		aux["aux/a.json"] = M{"definitions": M{nm: M{"type": "object", "properties": M{"fromA": M{"type": "string"}}}}}
+		aux["aux/deep/b.json"] = M{"definitions": M{nm: M{"type": "object", "properties": M{"fromB": M{"type": "integer"}}}}}
+		frag := "#/definitions/" + urlFragEscape(jsonPtrEscape(nm))
+		paths["/scn/nodefs"] = M{"get": resp(M{"$ref": "aux/a.json" + frag}), "put": resp(M{"type": "array", "items": M{"$ref": "aux/deep/b.json" + frag}})}
+		g.hit("scenario:no-root-definitions")
+	case "pointer-in-simple-target":
+		// an operation-level pointer (single caller) to a simple array / map sub-schema of a root definition whose element is
+		// itself an anonymous pointer to another simple sub-schema: the inlined copy carries a pointer that is still to be named
+		if !b.anonOK {
+			return
+		}
+		holder := g.pick([]string{"holderP", "row", "my row"})
+		var list M
+		inner := M{"$ref": "#/definitions/" + jsonPtrEscape(holder) + "/properties/label"}
+		if g.p(0.5) {
+			list = M{"type": "array", "items": inner}
+		} else {
+			list = M{"type": "object", "additionalProperties": inner}
+		}
+		var label M
+		if g.p(0.5) {
+			label = M{"type": "string"}
+		} else {
+			label = M{"type": "array", "items": M{"type": "integer"}}
+		}
+		rootDefs[holder] = M{"type": "object", "properties": M{"list": list, "label": label}}
+		paths["/scn/ptr"] = M{"get": resp(M{"$ref": "#/definitions/" + jsonPtrEscape(holder) + "/properties/list"})}
+		if g.p(0.3) {
+			paths["/scn/ptr2"] = M{"get": resp(M{"$ref": "#/definitions/" + jsonPtrEscape(holder)})}
+		}
+		g.hit("scenario:pointer-in-simple-target")
+	case "shared-param-twins":
+		// an inline complex schema in a path-level body parameter, shared by operations whose generated names are equal up
+		// to letter case (and distinct)
+		ids := [][]string{{"find-pets-by-ids", "findPetsByIDs"}, {"searchPets", "SearchPets"}, {"list_users", "listUsers"}}[g.n(3)]
+		body := M{"type": "object", "properties": M{"q": M{"type": "string"}}}
+		if g.p(0.5) {
+			body["properties"].(M)["inner"] = M{"type": "object", "properties": M{"deep": M{"type": "integer"}}}
+			g.hit("scenario:shared-param-twins-nested")
+		}
+		pi := M{"parameters": []any{M{"name": "body", "in": "body", "schema": body}}}
+		for i, m := range []string{"get", "post"} {
+			pi[m] = M{"operationId": ids[i], "responses": M{"200": M{"description": "ok"}}}
+		}
+		paths["/scn/shared"] = pi
+		g.hit("scenario:shared-param-twins")
+	case "id-equals-derived-key":
+		// an operation without id next to another one, of the same method, whose explicit id is the key derived for the first
+		var inl M
+		if g.p(0.5) {
+			inl = M{"type": "object", "properties": M{"p": M{"type": "string"}}}
+		} else {
+			inl = M{"type": "array", "items": []any{M{"type": "string"}, M{"type": "integer"}}}
+		}
+		paths["/scn/things"] = M{"get": M{"responses": M{"200": M{"description": "idless", "schema": inl}}}}
+		paths["/scn/other"] = M{"get": M{"operationId": "GetScnThings", "responses": M{"200": M{"description": "named", "schema": M{"type": "object", "properties": M{"o": M{"type": "integer"}}}}}}}
+		g.hit("scenario:id-equals-derived-key")
 	case "case-twins":
 		// an auxiliary document with two $ref-free definitions whose names differ by letter case only, both referred to from
 		// the root: the two imports compete for one generated name (the order of import must not depend on map order)
